@@ -603,3 +603,31 @@ Proof.
   - now rewrite all_pairs_ok_map.
   - unfold abs_det_sum. rewrite map_map. exact H2.
 Qed.
+
+(* ------------------------------------------------------------------ adaptive_theta *)
+Lemma Qltb_lt a b : Qltb a b = true <-> (a < b)%Q.
+Proof. unfold Qltb, Qlt. apply Z.ltb_lt. Qed.
+
+Theorem theta_select_spec est theta mx k :
+  In k (theta_select est theta mx) <->
+  k < length est /\ (theta * match mx with Some v => v | None => qmax est end < nth k est 0%Q)%Q.
+Proof.
+  unfold theta_select. rewrite filter_In, in_seq, Qltb_lt. split; intros [H1 H2]; split; auto; lia.
+Qed.
+
+Lemma filter_seq_sorted (P : nat -> bool) n : forall s a b, a < b < length (filter P (seq s n)) ->
+  nth a (filter P (seq s n)) 0 < nth b (filter P (seq s n)) 0.
+Proof.
+  induction n as [|n IH]; intros s a b H; simpl in *; [lia|].
+  assert (Htail : forall y, In y (filter P (seq (S s) n)) -> s < y).
+  { intros y Hy. apply filter_In in Hy. destruct Hy as [Hy _]. apply in_seq in Hy. lia. }
+  destruct (P s); simpl in *.
+  - destruct a as [|a], b as [|b]; try lia.
+    + apply Htail, nth_In. lia.
+    + apply IH. lia.
+  - apply IH. exact H.
+Qed.
+
+Theorem theta_select_sorted est theta mx : NoDup (theta_select est theta mx) /\
+  forall a b, a < b < length (theta_select est theta mx) -> nth a (theta_select est theta mx) 0 < nth b (theta_select est theta mx) 0.
+Proof. unfold theta_select. split; [apply NoDup_filter, seq_NoDup | apply filter_seq_sorted]. Qed.
